@@ -154,6 +154,10 @@ def heap_refs(v, out):
                 for y in x:
                     if isinstance(y, (RefVal, AdtVal, TupleVal, ArrayVal, Choice, Opaque)):
                         heap_refs(y, out)
+                    elif isinstance(y, tuple):
+                        for z in y:
+                            if isinstance(z, (RefVal, AdtVal, TupleVal, ArrayVal, Choice, Opaque)):
+                                heap_refs(z, out)
 
 
 def map_heap_refs(v, f):
@@ -178,8 +182,10 @@ def map_heap_refs(v, f):
         for k, x in v.data:
             if isinstance(x, (RefVal, AdtVal, TupleVal, ArrayVal, Choice, Opaque)):
                 x = map_heap_refs(x, f)
-            elif isinstance(x, tuple) and any(isinstance(y, (RefVal, AdtVal, TupleVal, ArrayVal, Choice, Opaque)) for y in x):
-                x = tuple(map_heap_refs(y, f) if isinstance(y, (RefVal, AdtVal, TupleVal, ArrayVal, Choice, Opaque)) else y for y in x)
+            elif isinstance(x, tuple):
+                x = tuple(map_heap_refs(y, f) if isinstance(y, (RefVal, AdtVal, TupleVal, ArrayVal, Choice, Opaque))
+                          else (tuple(map_heap_refs(z, f) if isinstance(z, (RefVal, AdtVal, TupleVal, ArrayVal, Choice, Opaque)) else z for z in y) if isinstance(y, tuple) else y)
+                          for y in x)
             nd.append((k, x))
         return Opaque(v.kind, tuple(nd))
     return v
@@ -193,7 +199,11 @@ def top_of(tyj, deps=frozenset(), tags=frozenset()):
     if t is not None:
         return IntVal.top(t, deps=deps, tags=tags)
     if isinstance(tyj, dict) and tyj.get("k") == "float":
-        return FloatVal(tyj["bits"], deps=deps, tags=tags)
+        term = None
+        for tg in tags:
+            if isinstance(tg, tuple) and len(tg) == 2 and tg[0] in ("existing", "sym"):
+                term = ("sym", "%s:%s" % tg)
+        return FloatVal(tyj["bits"], term=term, deps=deps, tags=tags)
     if isinstance(tyj, dict) and tyj.get("k") == "tuple":
         if not tyj["elems"]:
             return UNIT
@@ -537,6 +547,12 @@ class Interp:
         if tyj.get("k") == "tuple" and not tyj["elems"]:
             return UNIT
         v = c.get("val")
+        if v and v.get("kind") == "ref_ref_bytes" and tyj.get("k") == "ref" and tyj["to"].get("k") == "ref":
+            inner_c = {"ty": tyj["to"], "val": {"kind": "ref_bytes", "bytes": v["bytes"]}}
+            iv = self.const_val(inner_c)
+            if isinstance(iv, Opaque) and iv.kind == "constref":
+                return Opaque.make("constrefref", arr=iv.get("arr"))
+            return Top(tyj)
         if v:
             inner0 = tyj["to"] if tyj.get("k") == "ref" else tyj
             if inner0.get("k") == "adt" and inner0["path"] in self.prog.adts:
@@ -622,6 +638,10 @@ class Interp:
             if isinstance(v, Opaque) and v.kind == "constref":
                 loc = st.new_heap(v.get("arr"))
                 return RefVal(loc, False)
+            if isinstance(v, Opaque) and v.kind == "constrefref":
+                loc = st.new_heap(v.get("arr"))
+                loc2 = st.new_heap(RefVal(loc, False))
+                return RefVal(loc2, False)
             return v
         return Top(None)
 
@@ -798,6 +818,11 @@ class Interp:
             f = {"Add": lambda x, y: x + y, "Sub": lambda x, y: x - y, "Mul": lambda x, y: x * y}[op]
             vals = frozenset(f(x, y) for x in a.vals for y in b.vals)
             lo, hi = max(lo, min(vals)), min(hi, max(vals))
+        na, nb = _name_of(a), _name_of(b)
+        if (na is not None or nb is not None) and lin is None:
+            sym = {"Add": "+", "Sub": "-", "Mul": "*"}[op]
+            nm = "(%s%s%s)" % (na if na is not None else (a.cval() if a.is_const() else "?"), sym, nb if nb is not None else (b.cval() if b.is_const() else "?"))
+            tags = frozenset(t for t in tags if not (isinstance(t, tuple) and t and t[0] == "name")) | frozenset([("name", nm)])
         r = IntVal(ty, lo, hi, vals, None, lin, deps, tags=tags)
         if lo == hi:
             r = IntVal.const(ty, lo) if ty.min() <= lo <= ty.max() else r
@@ -811,6 +836,10 @@ class Interp:
     def compare(self, st, op, a, b):
         deps = a.deps | b.deps
         res = None
+        if a.vid == b.vid and op in ("Eq", "Le", "Ge", "Ne", "Lt", "Gt"):
+            r = IntVal.const(BOOL, 1 if op in ("Eq", "Le", "Ge") else 0)
+            r.deps = deps
+            return r
         if op == "Eq":
             if a.hi < b.lo or b.hi < a.lo:
                 res = False
@@ -1281,6 +1310,8 @@ class Interp:
         if rv is None:
             rv = top_of(fr.fn["locals"][0]["ty"])
         st.frames.pop()
+        if fr.tag is not None:
+            st.events.append({"kind": "tagged_return", "tag": fr.tag, "fn": fr.fn["path"], "value": rv, "facts_len": len(st.pc.log)})
         if fr.on_return is not None:
             return fr.on_return(self, st, rv)
         st.retval = rv
@@ -1392,7 +1423,9 @@ class Interp:
             op = _NEG[op]
         if not isinstance(a, IntVal) or not isinstance(b, IntVal):
             if isinstance(a, FloatVal) or isinstance(b, FloatVal):
-                st.pc.add_guard({"op": op, "a": repr(a), "b": repr(b), "float": True, "deps": deps_of(a) | deps_of(b)})
+                st.pc.add_guard({"op": op, "a": repr(a), "b": repr(b), "float": True, "deps": deps_of(a) | deps_of(b),
+                                 "a_term": getattr(a, "term", None), "b_term": getattr(b, "term", None),
+                                 "a_const": getattr(a, "const", None), "b_const": getattr(b, "const", None)})
             return True
         a = self.current(st, a)
         b = self.current(st, b)
@@ -1932,6 +1965,13 @@ _NEG = {"Eq": "Ne", "Ne": "Eq", "Lt": "Ge", "Ge": "Lt", "Gt": "Le", "Le": "Gt"}
 _SWAP = {"Eq": "Eq", "Ne": "Ne", "Lt": "Gt", "Gt": "Lt", "Le": "Ge", "Ge": "Le"}
 
 
+def _name_of(v):
+    for t in v.tags:
+        if isinstance(t, tuple) and len(t) == 2 and t[0] == "name":
+            return t[1]
+    return None
+
+
 def _f64(bits, width):
     import struct
     if width == 32:
@@ -2023,6 +2063,9 @@ def _descr(v):
     if isinstance(v, IntVal):
         if v.is_const():
             return {"const": v.lo}
+        nm = _name_of(v)
+        if nm is not None and v.lin is None:
+            return {"name": nm}
         if v.lin is not None:
             return {"lin": v.lin}
         if v.bits is not None and all(e is not None for e in v.bits):
